@@ -279,15 +279,37 @@ def value_set(fn, nid, name_d, width=16):
             return inter(base, [full])
         # (x >> k) op c   /  (x & m) op c with m a high mask
         if an["k"] == "BinaryOperator" and an["op"] in (">>", "&"):
-            x = fn.nodes[fn.strip(an["ch"][0])]
+            x = fn.nodes[fn.strip_casts(an["ch"][0])]
             kk = fn.const_value(an["ch"][1])
             if not (x["k"] == "DeclRefExpr" and x.get("d") == name_d and kk is not None):
                 raise Unrecognised("predicate %s" % fn.text(nid))
             if an["op"] == "&":
-                # mask must be contiguous ones from bit s up to width-1
-                s = (kk & -kk).bit_length() - 1
+                s = (kk & -kk).bit_length() - 1 if kk else 0
                 if kk != (((1 << width) - 1) >> s) << s or c & ((1 << s) - 1):
-                    raise Unrecognised("mask %#x is not a high-bits mask" % kk)
+                    # general mask: the set {x | x & m == c} as a union of blocks: bits below the lowest mask
+                    # bit are free (block size 2^s); the free bits above it are expanded (bit-pattern domain)
+                    if op not in ("==", "!="):
+                        raise Unrecognised("ordered comparison of a masked value")
+                    if c & ~kk:
+                        blocks = []
+                    else:
+                        free_hi = [i for i in range(s, width) if not (kk >> i) & 1]
+                        blocks = []
+                        for combo in range(1 << len(free_hi)):
+                            base = c
+                            for j, bit in enumerate(free_hi):
+                                if (combo >> j) & 1:
+                                    base |= 1 << bit
+                            blocks.append((base, base + (1 << s) - 1))
+                        blocks.sort()
+                        merged = []
+                        for a_, b_ in blocks:
+                            if merged and merged[-1][1] + 1 == a_:
+                                merged[-1] = (merged[-1][0], b_)
+                            else:
+                                merged.append((a_, b_))
+                        blocks = merged
+                    return blocks if op == "==" else comp(blocks)
                 kk, c = s, c >> s
             if op in ("==", "!="):
                 blk = [(c << kk, min((c << kk) + (1 << kk) - 1, full[1]))] if (c << kk) <= full[1] else []
